@@ -205,7 +205,28 @@ fn run_threads(ctx: &Ctx, l: &mut Local) {
     let check = "threads@opt";
     let per = ctx.n(50, 400) as usize;
     let reps = ctx.pick(3usize, 10);
-    let base_cases = contention_cases(ctx, check, per);
+    let mut base_cases = contention_cases(ctx, check, per);
+    // every input size of the threaded sieves once (the parameters of the threaded paths - blocks offered to the
+    // pool, polynomials per work item, targets - are functions of the size: a wrong band shows at a single size)
+    {
+        let mut r = crate::oracle::int::SplitMix(crate::engine::hash64(&(ctx.seed, check, "size-sweep")));
+        let step = ctx.pick(1usize, 1);
+        for (alg, lo, hi) in [("mpqs", 64u32, 172u32), ("siqs", 64, 180), ("qs", 64, 112)] {
+            for bits in (lo..=hi).step_by(step) {
+                // quick: the cheap half of the range at every size, the upper half at every size for MPQS only
+                if ctx.quick() && alg != "mpqs" && bits > 120 && bits % 4 != 0 {
+                    continue;
+                }
+                let a = bits / 2 - r.below(3) as u32;
+                let p = gen_prime(a, r.next());
+                let q = gen_prime(bits - a, r.next());
+                if p == q {
+                    continue;
+                }
+                base_cases.push(mk_case("size-sweep", vec![p, q], alg, PrefSpec::default()));
+            }
+        }
+    }
     // single-threaded reference runs
     let jobs: Vec<Value> = base_cases.iter().map(|c| c.job()).collect();
     let base = run_jobs("opt", &jobs, workers(), &|_| 300.0).unwrap_or_default();
@@ -222,10 +243,14 @@ fn run_threads(ctx: &Ctx, l: &mut Local) {
         }
         for (j, &t) in THREAD_COUNTS.iter().enumerate() {
             // quick: each input gets three of the six thread counts
-            if ctx.quick() && (i + j) % 2 == 1 {
+            let sweep = c.shape == "size-sweep";
+            if sweep && t != THREAD_COUNTS[(i % 3) + 1] {
                 continue;
             }
-            for _ in 0..reps {
+            if !sweep && ctx.quick() && (i + j) % 2 == 1 {
+                continue;
+            }
+            for _ in 0..(if sweep { 1 } else { reps }) {
                 let mut d = c.clone();
                 d.prefs.threads = Some(t);
                 cases.push(d);
@@ -249,6 +274,9 @@ fn run_threads(ctx: &Ctx, l: &mut Local) {
         if c.n.bits() >= 97 {
             l.label("bits>=97(single-large-primes)");
         }
+        if c.shape == "size-sweep" {
+            l.label("size-sweep");
+        }
         l.nontrivial(c.key());
         l.sample(&format!("threads:{}", c.algo), || serde_json::to_value(c).unwrap());
         if let Err(f) = judge_threaded_diag(c, &base[i], &o, "opt") {
@@ -260,7 +288,8 @@ fn run_threads(ctx: &Ctx, l: &mut Local) {
 fn run(ctx: &Ctx) {
     ctx.set_rule(
         "(1) differential over thread counts {2,3,4,8,12,16} x repetitions on generated 45..125-bit composites (Qs, Mpqs, Siqs, \
-         Ecm, Auto; every third sieve case forces double large primes) against the single-threaded run; (2) the same under seeded \
+         Ecm, Auto; every third sieve case forces double large primes) and on one semiprime of every bit length 64..172 (Mpqs), \
+         64..180 (Siqs), 64..112 (Qs) against the single-threaded run; (2) the same under seeded \
          schedule perturbation (yield / spin / sleep at every relation-store lock acquisition and completion check, through the \
          yield_point hook) and under four directed delay-only schedules of the completion bookkeeping (window, freeze, ambush, \
          stale publication; a dedicated batch of 64..100-bit semiprimes with 8/12/16 workers and the 165..190-bit inputs); (3) the add calls recorded from real sieves replayed into a fresh relation store in generated orders \
@@ -279,6 +308,7 @@ fn run(ctx: &Ctx) {
     ctx.essential("threads:2", 5);
     ctx.essential("reference-complete", 10);
     ctx.essential("double-large-primes-forced", 5);
+    ctx.essential("size-sweep", 100);
 }
 
 fn replay(ctx: &Ctx, check: &str, case: &Value) -> Result<(), Fail> {
